@@ -161,6 +161,36 @@ func isBigSlice(t types.Type) bool {
 	return ok && isBigPtr(s.Elem())
 }
 
+func isBigValueType(t types.Type) bool {
+	return core.IsNamedType(t, "math/big", "Int") || core.IsNamedType(t, "math/big", "Rat")
+}
+
+// neverWrittenBig: no in-place big-number operation has the cell as its receiver, nothing is
+// stored through it, and its address is only handed to calls as a (read) operand.
+func neverWrittenBig(al *ssa.Alloc) bool {
+	if al.Referrers() == nil {
+		return true
+	}
+	for _, r := range *al.Referrers() {
+		switch y := r.(type) {
+		case *ssa.DebugRef, *ssa.Phi:
+		case *ssa.Store:
+			if y.Addr == ssa.Value(al) {
+				return false
+			}
+		case ssa.CallInstruction:
+			if tn, m := core.BigMethod(y.Common()); tn != "" && !bigReadersOnly[m] {
+				if args := core.CallArgs(y.Common()); len(args) > 0 && args[0] == ssa.Value(al) {
+					return false
+				}
+			}
+		case *ssa.FieldAddr, *ssa.UnOp:
+			return false
+		}
+	}
+	return true
+}
+
 // cellKey names the storage a big-number pointer refers to.
 func cellKey(v ssa.Value) string {
 	for i := 0; i < 12; i++ {
@@ -171,6 +201,11 @@ func cellKey(v ssa.Value) string {
 		case *ssa.Convert:
 			v = x.X
 			continue
+		case *ssa.Alloc:
+			// new(big.Int) that nothing ever writes: the number zero
+			if x.Heap && isBigValueType(derefT(x.Type())) && neverWrittenBig(x) {
+				return "const:0/1"
+			}
 		case *ssa.Call:
 			obj := core.CalleeObj(&x.Call)
 			if core.IsFunc(obj, "math/big", "NewInt") {
